@@ -143,8 +143,10 @@ mod imp {
         }
         let want: Vec<u8> = (0..tail).map(|i| i as u8 ^ 0x5a).collect();
         let before = m.__verif_repr();
+        let p0 = m.as_ptr() as usize;
         m.advance(n - tail);
         let after = m.__verif_repr();
+        ops::expect_ptr(d, "advance-promote", "view", m.as_ptr() as usize, p0 + (n - tail), "MutVec");
         d.cell(format!("bigoff|{:?}->{:?}|ptr{}", before.kind, after.kind, usize::BITS));
         d.count("bigoff_runs");
         if after.kind != before.kind {
@@ -166,6 +168,51 @@ mod imp {
         let model: Vec<u8> = [vec![0u8; 8], b"abcdefgh12345678".to_vec()].concat();
         d.add(Val::M(m2), model, Origin::Heap);
         d.check_all();
+        // the sole handle of a buffer promoted inside advance() is still its unique owner
+        {
+            let mut m3 = BytesMut::zeroed(n);
+            m3[n - 4..].copy_from_slice(b"wxyz");
+            m3.advance(n - 4);
+            let p3 = m3.as_ptr() as usize;
+            d.log(format!("BytesMut::zeroed({n}); advance({}); freeze; is_unique; try_into_mut", n - 4));
+            let b = m3.freeze();
+            d.count("unique_queries");
+            if !b.is_unique() {
+                d.viol("C08", "unique-false-negative:bigoff", "the only handle of a buffer promoted inside advance() is reported as shared");
+            }
+            match b.try_into_mut() {
+                Ok(mut back) => {
+                    ops::expect_ptr(d, "try_into_mut", "bigoff", back.as_ptr() as usize, p3, "shared");
+                    d.count("reclaim_queries");
+                    if !back.try_reclaim(4) {
+                        d.viol("C08", "reclaim-refused:bigoff", "try_reclaim(4) refused on the emptied sole handle of a 128 MiB buffer");
+                    }
+                    back.clear();
+                    if !back.try_reclaim(n) {
+                        d.viol("C08", "reclaim-refused:bigoff", "try_reclaim(whole allocation) refused on the emptied sole handle");
+                    }
+                    d.add(Val::M(back), Vec::new(), Origin::Heap);
+                }
+                Err(b) => {
+                    d.viol("C08", "try_into_mut-refused:bigoff", "try_into_mut failed on the only handle of a buffer promoted inside advance()");
+                    d.add(Val::B(b), b"wxyz".to_vec(), Origin::Heap);
+                }
+            }
+            d.check_all();
+        }
+        // Bytes -> BytesMut of a unique Bytes whose front offset is beyond the inline limit
+        {
+            let mut v = vec![0u8; n];
+            v[n - 4..].copy_from_slice(b"ABCD");
+            let mut b = bytes::Bytes::from(v);
+            b.advance(n - 4);
+            let pb = b.as_ptr() as usize;
+            d.log(format!("Bytes::from(vec![0; {n}]); advance({}); BytesMut::from", n - 4));
+            let m4 = BytesMut::from(b);
+            ops::expect_ptr(d, "into_mut", "bigoff", m4.as_ptr() as usize, pb, "promotable");
+            d.add(Val::M(m4), b"ABCD".to_vec(), Origin::Heap);
+            d.check_all();
+        }
         d.sample_trace();
         d.finish(&mut ch, false);
         d.obs.inc("histories");
